@@ -47,6 +47,8 @@ type SymStr struct {
 	b     []*Term
 	taint string // non-empty: content is an approximation (e.g. formatted symbolic number); inspecting bytes is unsupported
 	dec   *decInfo // set when the string is exactly the base-10 rendering of an integer term
+	flt   *Term    // set when the string is fmt's %v/%g rendering of this float64 term (bytes unknown: taint is set too)
+	fltF  bool     // with flt: the rendering is strconv.FormatFloat(x, 'f', -1, 64) (never an exponent)
 }
 
 func strBytes(v value) []*Term {
